@@ -8,10 +8,10 @@ def E(): return Engine.cur
 
 class SymRNG(np.random.RandomState):
     """Passes get_rng's isinstance test; "every seed" is over-approximated by "every sequence of in-range draws"."""
-    def __init__(self, budget=50, stream='local', fork_perm=False, fork_int=False, perm_subset=None):
+    def __init__(self, budget=50, stream='local', fork_perm=False, fork_int=False, perm_subset=None, unif_subset=None):
         super().__init__(0)
         self.budget = budget; self.draws = []; self.stream = stream
-        self.fork_perm = fork_perm; self.fork_int = fork_int; self.perm_subset = perm_subset
+        self.fork_perm = fork_perm; self.fork_int = fork_int; self.perm_subset = perm_subset; self.unif_subset = unif_subset
         self.seen = set(); self.detect_redundant = True
     def _use(self):
         pass
@@ -39,7 +39,11 @@ class SymRNG(np.random.RandomState):
         if size is None: return self._int(low, high)
         n = int(np.prod(size)); return S(np.array([self._int(low, high) for _ in range(n)], dtype=object).reshape(size), 'i')
     def _unif(self):
-        self._use(); v = E().fresh(self.stream + '_rand', 'R', lo=0, hi=1, hi_open=True)
+        self._use()
+        if self.unif_subset:        # bound stated by the harness: each uniform draw is a (forked) choice among these values
+            i = E().concretize(E().fresh(self.stream + '_randpick', 'I', lo=0, hi=len(self.unif_subset), hi_open=True))
+            v = self.unif_subset[int(i)]
+        else: v = E().fresh(self.stream + '_rand', 'R', lo=0, hi=1, hi_open=True)
         self.draws.append(('random_sample', v)); return v
     def random_sample(self, size=None):
         from .arr import S
